@@ -258,6 +258,9 @@ def key_store_helpers(ctx, m, disc_pred, reg_pred, guard_atoms_of) -> Dict[str, 
     parameters.  disc_pred(call, var, fn) / reg_pred(call, var, fn): the call discards / registers `var`;
     guard_atoms_of(g, fn, node) -> atom set."""
     from ._helpers_rules_d import call_nodes
+    import re
+    if not re.search(r"\b(?!self\b|cls\b)[A-Za-z_]\w*\.key\s*=[^=]", m.source):
+        return {}  # no `<name>.key = ...` on anything but self in this module
     pm = m.parents()
     byname = module_functions_by_name(m.tree)
     out: Dict[str, KeyStoreHelper] = {}
